@@ -316,9 +316,10 @@ Proof.
   cbn in G1, G2, G3, G4, G5, G6.
   unfold bufc in D1, D3. rewrite Hb in D1, D3. cbn -[view seq Nat.sub] in D1, D3. rewrite app_nil_r in D1.
   specialize (E2 Hb).
-  set (s4 := set_ghost (set_disk s3 fs (hbuf s3)) (next s3) (flushed s3)
+  set (s4 := set_since (set_ghost (set_disk s3 fs (hbuf s3)) (next s3) (flushed s3)
                (dropped s3 + (length (view (a0 :: rest)) - length (view fs)))
-               ((csize (hsz c) (ocontent (mainf s1)), size) :: events s3)).
+               ((csize (hsz c) (ocontent (mainf s1)), size) :: events s3))
+               (match last fs None with None => next s3 | Some _ => since s3 end)).
   assert (H4 : DE c s4).
   { split.
     - unfold D, bufc, s4. cbn -[view seq Nat.sub]. rewrite G2, Hb, G3, G4, G5. cbn -[view seq Nat.sub].
